@@ -8,30 +8,35 @@ Import ListNotations.
 From SV Require Import Lex LexRender Expr Parens Quote QuoteMore Number CallForm Fmt0 Fmt0Proof.
 Notation tok := Lex.tok (only parsing).
 
-Inductive kind := KNl | KWs | KOpen | KFun | KVal | KOther.
+Inductive kind := KNl | KWs | KOpen | KClose | KFun | KVal | KOther.
+Definition isval (k : kind) : bool := match k with KVal | KClose => true | _ => false end.
 Definition has_lf (s : bytes) : bool := existsb (fun c => Ascii.eqb c LF) s.
 Definition classify (t : tok) : kind :=
   match t with
   | TWs s => if has_lf s then KNl else KWs
   | TIdent _ | TStr _ _ _ => KVal
   | TSym s => if beqb s (str "(") then KOpen else if beqb s (str "function") then KFun
-              else if beqb s (str ")") || beqb s (str "]") || beqb s (str "}") then KVal else KOther
+              else if beqb s (str ")") then KClose else if beqb s (str "]") || beqb s (str "}") then KVal else KOther
   | _ => KOther
   end.
 (* the state: does the last token that is not a blank end a value (and no line break since); were there blanks since;
-   are we in a function header whose `(` has not come yet *)
-Record sst := mk { pv : bool; gap : bool; hdr : bool }.
-Definition init : sst := mk false false false.
+   are we in a function header whose `(` has not come yet (HName), or between the parentheses of its parameters (HPar:
+   the `)` that closes them does not end a value) *)
+Inductive hmode := HNo | HName | HPar.
+Record sst := mk { pv : bool; gap : bool; hdr : hmode }.
+Definition init : sst := mk false false HNo.
 Section Scan.
 Variables sc sd : bool.          (* a blank before the `(` of a call / of a function header *)
 Definition step (s : sst) (t : tok) : option sst :=
   match classify t with
   | KNl => Some (mk false false (hdr s))
   | KWs => Some (mk (pv s) true (hdr s))
-  | KFun => Some (mk false false true)
+  | KFun => Some (mk false false HName)
   | KVal => Some (mk true false (hdr s))
+  | KClose => match hdr s with HPar => Some (mk false false HNo) | h => Some (mk true false h) end
   | KOther => Some (mk false false (hdr s))
-  | KOpen => if pv s && negb (Bool.eqb (gap s) (if hdr s then sd else sc)) then None else Some (mk false false false)
+  | KOpen => if pv s && negb (Bool.eqb (gap s) (match hdr s with HName => sd | _ => sc end)) then None
+             else Some (mk false false (match hdr s with HName => HPar | h => h end))
   end.
 Fixpoint run (s : sst) (ts : list tok) : option sst :=
   match ts with [] => Some s | t :: r => match step s t with Some s' => run s' r | None => None end end.
@@ -51,19 +56,19 @@ Lemma trans_weak (P P' Q Q' : sst -> Prop) x : (forall s, P' s -> P s) -> (foral
 Proof. intros HP HQ H s Hs. destruct (H s (HP s Hs)) as (s' & E & Q1). exists s'. auto. Qed.
 
 (* the classes: A - outside a header; O - outside a header and not behind a value; G - outside a header, no blank pending *)
-Definition A (s : sst) : Prop := hdr s = false.
-Definition O (s : sst) : Prop := hdr s = false /\ pv s = false.
-Definition G (s : sst) : Prop := hdr s = false /\ gap s = false.
+Definition A (s : sst) : Prop := hdr s = HNo.
+Definition O (s : sst) : Prop := hdr s = HNo /\ pv s = false.
+Definition G (s : sst) : Prop := hdr s = HNo /\ gap s = false.
 Lemma O_A s : O s -> A s. Proof. intros [H _]. exact H. Qed.
 Lemma G_A s : G s -> A s. Proof. intros [H _]. exact H. Qed.
-Definition OG (s : sst) : Prop := hdr s = false /\ pv s = false /\ gap s = false.
+Definition OG (s : sst) : Prop := hdr s = HNo /\ pv s = false /\ gap s = false.
 Lemma OG_O s : OG s -> O s. Proof. intros (H & P & _). split; assumption. Qed.
 Lemma OG_G s : OG s -> G s. Proof. intros (H & _ & P). split; assumption. Qed.
 
 Lemma t_other t : classify t = KOther -> trans A [t] OG.
 Proof. intros C s Hs. exists (mk false false (hdr s)). cbn [run]. unfold step. rewrite C. split; [reflexivity|]. repeat split. exact Hs. Qed.
-Lemma t_val t : classify t = KVal -> trans A [t] G.
-Proof. intros C s Hs. exists (mk true false (hdr s)). cbn [run]. unfold step. rewrite C. split; [reflexivity|]. split; [exact Hs|reflexivity]. Qed.
+Lemma t_val t : isval (classify t) = true -> trans A [t] G.
+Proof. intros C s Hs. unfold A in Hs. exists (mk true false HNo). cbn [run]. unfold step. destruct (classify t); try discriminate; rewrite Hs; (split; [reflexivity|split; reflexivity]). Qed.
 Lemma t_ws_A t : classify t = KWs -> trans A [t] A.
 Proof. intros C s Hs. exists (mk (pv s) true (hdr s)). cbn [run]. unfold step. rewrite C. split; [reflexivity|exact Hs]. Qed.
 Lemma t_ws_O t : classify t = KWs -> trans O [t] O.
@@ -71,13 +76,13 @@ Proof. intros C s [Hs Ps]. exists (mk (pv s) true (hdr s)). cbn [run]. unfold st
 Lemma t_nl t : classify t = KNl -> trans A [t] OG.
 Proof. intros C s Hs. exists (mk false false (hdr s)). cbn [run]. unfold step. rewrite C. split; [reflexivity|]. repeat split. exact Hs. Qed.
 Lemma t_open_O : trans O [kw "("] OG.
-Proof. intros s [Hs Ps]. exists (mk false false false). cbn [run]. unfold step. change (classify (kw "(")) with KOpen. rewrite Ps. split; [reflexivity|repeat split]. Qed.
+Proof. intros s [Hs Ps]. exists (mk false false HNo). cbn [run]. unfold step. change (classify (kw "(")) with KOpen. rewrite Ps, Hs. split; [reflexivity|repeat split]. Qed.
 
 Lemma c_kw_other s : (if beqb (str s) (str "(") then false else if beqb (str s) (str "function") then false
-                      else if beqb (str s) (str ")") || beqb (str s) (str "]") || beqb (str s) (str "}") then false else true) = true ->
+                      else if beqb (str s) (str ")") then false else if beqb (str s) (str "]") || beqb (str s) (str "}") then false else true) = true ->
   classify (kw s) = KOther.
 Proof. unfold kw, classify. destruct (beqb (str s) (str "(")); [discriminate|]. destruct (beqb (str s) (str "function")); [discriminate|].
-  destruct (beqb (str s) (str ")") || beqb (str s) (str "]") || beqb (str s) (str "}")); [discriminate|reflexivity]. Qed.
+  destruct (beqb (str s) (str ")")); [discriminate|]. destruct (beqb (str s) (str "]") || beqb (str s) (str "}")); [discriminate|reflexivity]. Qed.
 Lemma c_sp : classify sp = KWs. Proof. reflexivity. Qed.
 Lemma cl_eol c : classify (eol c) = KNl. Proof. unfold eol. destruct (windows0 c); reflexivity. Qed.
 Lemma has_lf_repeat x n : Ascii.eqb x LF = false -> has_lf (repeat x n) = false.
@@ -119,7 +124,7 @@ Proof.
     destruct (pv s); cbn [Bool.eqb negb andb]; apply Inner; repeat split.
   - unfold step at 1. change (classify (kw "(")) with KOpen. rewrite Hs, Gs, Hsc, ?E. destruct (pv s); cbn [Bool.eqb negb andb]; apply Inner; repeat split.
 Qed.
-Lemma t_from_brace s s0 tl : hdr s = false -> hdr s0 = false -> run s (kw "{" :: tl) = run s0 (kw "{" :: tl).
+Lemma t_from_brace s s0 tl : hdr s = HNo -> hdr s0 = HNo -> run s (kw "{" :: tl) = run s0 (kw "{" :: tl).
 Proof. intros H H0. cbn [run]. unfold step. change (classify (kw "{")) with KOther. rewrite H, H0. reflexivity. Qed.
 Lemma t_pargs sug args :
   Forall (fun e => trans O (pexp e) G) args -> sug = true -> sugarable args = true ->
@@ -131,9 +136,9 @@ Proof.
   destruct x; try discriminate.
   - (* a string *) cbn [Fmt0.pexp]. apply t_val. reflexivity.
   - (* a table: its opening brace forgets what came before *)
-    intros s Hs. assert (E : run s (pexp (ETable fs)) = run (mk false false false) (pexp (ETable fs))).
-    { destruct fs as [|f fs]; [apply (t_from_brace s (mk false false false) [kw "}"] Hs eq_refl)|].
-      apply (t_from_brace s (mk false false false) (sp :: commas (map pexp (f :: fs)) ++ [sp; kw "}"]) Hs eq_refl). }
+    intros s Hs. assert (E : run s (pexp (ETable fs)) = run (mk false false HNo) (pexp (ETable fs))).
+    { destruct fs as [|f fs]; [apply (t_from_brace s (mk false false HNo) [kw "}"] Hs eq_refl)|].
+      apply (t_from_brace s (mk false false HNo) (sp :: commas (map pexp (f :: fs)) ++ [sp; kw "}"]) Hs eq_refl). }
     rewrite E. apply Hx. split; reflexivity.
 Qed.
 Lemma t_pargs_any sg args : Forall (fun e => trans O (pexp e) G) args -> trans G (pargs c (sg && sugarable args) (commas (map pexp args))) G.
@@ -201,7 +206,7 @@ Local Hint Resolve sub_refl sub_OG_O sub_OG_G sub_O_A sub_G_A sub_OG_A : sub.
 (* one token in front of a segment *)
 Lemma c_other t r P Q : classify t = KOther -> sub P A -> trans OG r Q -> trans P (t :: r) Q.
 Proof. intros C S H. apply (trans_cons P OG Q); [apply (trans_weak A P OG OG); [exact S|auto|apply t_other; exact C]|exact H]. Qed.
-Lemma c_val t r P Q : classify t = KVal -> sub P A -> trans G r Q -> trans P (t :: r) Q.
+Lemma c_val t r P Q : isval (classify t) = true -> sub P A -> trans G r Q -> trans P (t :: r) Q.
 Proof. intros C S H. apply (trans_cons P G Q); [apply (trans_weak A P G G); [exact S|auto|apply t_val; exact C]|exact H]. Qed.
 Lemma c_sp_A r P Q : sub P A -> trans A r Q -> trans P (sp :: r) Q.
 Proof. intros S H. apply (trans_cons P A Q); [apply (trans_weak A P A A); [exact S|auto|apply t_sp_A]|exact H]. Qed.
@@ -239,7 +244,7 @@ Lemma t_ptrail t : trans A (ptrail t) A.
 Proof. destruct t as [x|]; [|apply c_nil; auto with sub]. cbn [ptrail]. apply c_sp_A; [auto with sub|]. apply c_other; [reflexivity|auto with sub|apply c_nil; auto with sub]. Qed.
 
 (* the header of a function: from the keyword to the closing parenthesis of the parameters *)
-Definition H (s : sst) : Prop := hdr s = true /\ (pv s = true -> gap s = false).
+Definition H (s : sst) : Prop := hdr s = HName /\ (pv s = true -> gap s = false).
 Lemma h_other t : classify t = KOther -> trans H [t] H.
 Proof. intros C s [Hs _]. exists (mk false false (hdr s)). cbn [run]. unfold step. rewrite C. split; [reflexivity|]. split; [exact Hs|discriminate]. Qed.
 Lemma h_val t : classify t = KVal -> trans H [t] H.
@@ -250,35 +255,65 @@ Proof.
   change (dotted (n :: m :: r')) with (TIdent n :: kw "." :: dotted (m :: r')).
   apply (trans_cons H H H); [apply h_val; reflexivity|]. apply (trans_cons H H H); [apply h_other; kwc|exact IH].
 Qed.
-Lemma t_params (ps : list bytes) (va : bool) : trans OG (commas (map (fun n0 : bytes => [TIdent n0]) ps ++ (if va then [[kw "..."]] else [])) ++ [kw ")"]) G.
+(* between the parentheses of the parameters: names, commas, blanks, `...`; the closing parenthesis leaves the header *)
+Definition PP (s : sst) : Prop := hdr s = HPar.
+Lemma pp_keep t : match classify t with KVal | KOther | KWs => true | _ => false end = true -> trans PP [t] PP.
 Proof.
-  assert (E : forall l, Forall (fun x => trans O x G) l -> trans OG (commas l ++ [kw ")"]) G).
-  { intros l Hl. destruct l as [|x r]; [cbn [commas app]; apply c_val; [reflexivity|auto with sub|apply c_nil; auto with sub]|].
-    apply (c_app _ _ OG G G); [apply (c_weak _ O OG G G); [auto with sub|auto with sub|apply t_commas; [exact Hl|discriminate]]|].
-    apply c_val; [reflexivity|auto with sub|apply c_nil; auto with sub]. }
-  apply E. apply Forall_app. split.
-  - apply Forall_map. apply Forall_forall. intros x _. apply c_val; [reflexivity|auto with sub|apply c_nil; auto with sub].
-  - destruct va; [|constructor]. constructor; [|constructor]. apply c_other; [kwc|auto with sub|apply c_nil; auto with sub].
+  intros C s Hs. unfold PP in Hs. cbn [run]. unfold step. destruct (classify t); try discriminate; eexists; (split; [reflexivity|]); exact Hs.
 Qed.
-Lemma h_pparams ps va : trans H (pparams c ps va) G.
+Lemma pp_close : trans PP [kw ")"] OG.
+Proof. intros s Hs. unfold PP in Hs. exists (mk false false HNo). cbn [run]. unfold step. change (classify (kw ")")) with KClose. rewrite Hs. split; [reflexivity|repeat split]. Qed.
+Lemma pp_commas l : Forall (fun x => trans PP x PP) l -> trans PP (commas l) PP.
+Proof.
+  induction 1 as [|x r Hx Hr IH]; [apply c_nil; apply sub_refl|]. destruct r as [|y r']; [exact Hx|].
+  change (commas (x :: y :: r')) with (x ++ kw "," :: sp :: commas (y :: r')).
+  apply (trans_app PP PP PP); [exact Hx|]. apply (trans_cons PP PP PP); [apply pp_keep; reflexivity|]. apply (trans_cons PP PP PP); [apply pp_keep; reflexivity|exact IH].
+Qed.
+Lemma t_params (ps : list bytes) (va : bool) : trans PP (commas (map (fun n0 : bytes => [TIdent n0]) ps ++ (if va then [[kw "..."]] else [])) ++ [kw ")"]) OG.
+Proof.
+  apply (trans_app PP PP OG); [|apply pp_close]. apply pp_commas. apply Forall_app. split.
+  - apply Forall_map. apply Forall_forall. intros x _. apply pp_keep. reflexivity.
+  - destruct va; [|constructor]. constructor; [|constructor]. apply pp_keep. reflexivity.
+Qed.
+Lemma h_pparams ps va : trans H (pparams c ps va) OG.
 Proof.
   intros s [Hs Gs]. unfold pparams.
-  destruct (t_params ps va (mk false false false)) as (s' & E & Q); [repeat split|].
+  destruct (t_params ps va (mk false false HPar)) as (s' & E & Q); [reflexivity|].
   exists s'. split; [|exact Q]. rewrite <- E. destruct (space_definition (space0 c)) eqn:D; cbn [app run].
   - unfold step at 1. change (classify sp) with KWs. cbn [run]. unfold step at 1. change (classify (kw "(")) with KOpen. cbn [hdr pv gap].
     rewrite Hs, Hsd, ?D. destruct (pv s); reflexivity.
   - unfold step at 1. change (classify (kw "(")) with KOpen. rewrite Hs, Hsd, ?D. destruct (pv s) eqn:Pv; [rewrite (Gs eq_refl)|]; reflexivity.
 Qed.
-Lemma t_header p m ps va : trans A (kw "function" :: sp :: dotted p ++ (match m with Some n => [kw ":"; TIdent n] | None => [] end) ++ pparams c ps va) G.
+Lemma t_header p m ps va : trans A (kw "function" :: sp :: dotted p ++ (match m with Some n => [kw ":"; TIdent n] | None => [] end) ++ pparams c ps va) OG.
 Proof.
-  pose (H0 := fun s : sst => hdr s = true /\ pv s = false).
+  pose (H0 := fun s : sst => hdr s = HName /\ pv s = false).
   assert (F : trans A [kw "function"] H0).
-  { intros s _. exists (mk false false true). split; [reflexivity|]. split; reflexivity. }
+  { intros s _. exists (mk false false HName). split; [reflexivity|]. split; reflexivity. }
   assert (S : trans H0 [sp] H).
   { intros s [Hs Ps]. exists (mk (pv s) true (hdr s)). split; [reflexivity|]. split; [exact Hs|]. cbn [pv]. rewrite Ps. discriminate. }
-  apply (trans_cons A H0 G); [exact F|]. apply (trans_cons H0 H G); [exact S|]. apply (trans_app H H G); [apply h_dotted|].
-  apply (trans_app H H G); [|apply h_pparams]. destruct m as [n|]; [|apply c_nil; apply sub_refl].
+  apply (trans_cons A H0 OG); [exact F|]. apply (trans_cons H0 H OG); [exact S|]. apply (trans_app H H OG); [apply h_dotted|].
+  apply (trans_app H H OG); [|apply h_pparams]. destruct m as [n|]; [|apply c_nil; apply sub_refl].
   apply (trans_cons H H H); [apply h_other; kwc|apply h_val; reflexivity].
+Qed.
+(* the statements without a block inside *)
+Lemma t_psimple s : trans O (psimple c s) A.
+Proof.
+  destruct s; try (apply c_nil; auto with sub); cbn [psimple].
+  - destruct es as [|e es']; apply c_other; try kwc; auto with sub; (apply c_sp_O; [auto with sub|]).
+    + apply t_pnames; auto with sub.
+    + apply (c_app _ _ O A A); [apply t_pnames; auto with sub|]. apply c_sp_A; [auto with sub|]. apply c_other; [kwc|auto with sub|].
+      apply c_sp_O; [auto with sub|]. apply t_pexps; auto with sub.
+  - apply (c_app _ _ O A A); [apply t_pexps; auto with sub|]. apply c_sp_A; [auto with sub|]. apply c_other; [kwc|auto with sub|].
+    apply c_sp_O; [auto with sub|]. apply t_pexps; auto with sub.
+  - apply t_pexp_s; auto with sub.
+  - destruct es as [|e es']; (apply c_other; [kwc|auto with sub|]); [apply c_nil; auto with sub|]. apply c_sp_O; [auto with sub|]. apply t_pexps; auto with sub.
+  - apply c_other; [kwc|auto with sub|apply c_nil; auto with sub].
+Qed.
+(* ` <statement> end` behind `then` or a function header *)
+Lemma t_collapsed s1 : trans O (sp :: psimple c s1 ++ [sp; kw "end"]) A.
+Proof.
+  apply c_sp_O; [apply sub_refl|]. apply (c_app _ _ O A A); [apply t_psimple|]. apply c_sp_A; [apply sub_refl|].
+  apply c_other; [kwc|apply sub_refl|apply c_nil; auto with sub].
 Qed.
 
 Definition Ps (s : stmt) : Prop := forall d, trans O (pstmt c d s) A.
@@ -292,11 +327,12 @@ Proof.
 Qed.
 Lemma t_do_end b d P Q : Bs b -> sub P A -> sub OG Q -> trans P (kw "do" :: eol c :: pblk c (S d) b ++ indent c d ++ [kw "end"]) Q.
 Proof. intros Hb S1 S2. apply c_other; [kwc|exact S1|]. apply c_eol; [auto with sub|]. apply (c_weak _ O OG Q Q); [auto with sub|apply sub_refl|]. apply t_block_end; assumption. Qed.
-Lemma t_fbody b d : Bs b -> trans A (fbody c d b) A.
+Lemma t_fbody b d : Bs b -> trans O (fbody c d b) A.
 Proof.
   intros Hb. unfold fbody. destruct (blk_empty b).
   - apply c_sp_A; [auto with sub|]. apply c_other; [kwc|auto with sub|apply c_nil; auto with sub].
-  - apply c_eol; [auto with sub|]. apply (c_weak _ O OG A A); [auto with sub|apply sub_refl|]. apply t_block_end; [exact Hb|auto with sub].
+  - destruct (fun_guard c b) as [s1|]; [apply t_collapsed|].
+    apply c_eol; [auto with sub|]. apply (c_weak _ O OG A A); [auto with sub|apply sub_refl|]. apply t_block_end; [exact Hb|auto with sub].
 Qed.
 Lemma t_concat_items is : Forall Is is -> forall d, trans O (List.concat (map (pitem c d) is)) O.
 Proof. induction 1 as [|i r Hi Hr IH]; intros d; [apply c_nil; apply sub_refl|]. cbn [map List.concat]. apply (c_app _ _ O O O); [apply Hi|apply IH]. Qed.
@@ -310,21 +346,24 @@ Proof.
     apply c_eol; [apply sub_refl|apply c_nil; auto with sub]. }
   assert (Hs : forall s, Ps s); [|split; [exact Hs|]].
   - apply (stmt_ind' Ps Qs Is Bs); unfold Ps, Qs, Bs; intros; try (apply Hitem; assumption).
-    + (* local *) destruct es as [|e es']; cbn [pstmt]; apply c_other; try kwc; auto with sub; (apply c_sp_O; [auto with sub|]).
+    + (* local *) destruct es as [|e es']; cbn [pstmt psimple]; apply c_other; try kwc; auto with sub; (apply c_sp_O; [auto with sub|]).
       * apply t_pnames; auto with sub.
       * apply (c_app _ _ O A A); [apply t_pnames; auto with sub|]. apply c_sp_A; [auto with sub|]. apply c_other; [kwc|auto with sub|].
         apply c_sp_O; [auto with sub|]. apply t_pexps; auto with sub.
-    + (* assignment *) cbn [pstmt]. apply (c_app _ _ O A A); [apply t_pexps; auto with sub|]. apply c_sp_A; [auto with sub|]. apply c_other; [kwc|auto with sub|].
+    + (* assignment *) cbn [pstmt psimple]. apply (c_app _ _ O A A); [apply t_pexps; auto with sub|]. apply c_sp_A; [auto with sub|]. apply c_other; [kwc|auto with sub|].
       apply c_sp_O; [auto with sub|]. apply t_pexps; auto with sub.
-    + (* call *) cbn [pstmt]. apply t_pexp_s; auto with sub.
+    + (* call *) cbn [pstmt psimple]. apply t_pexp_s; auto with sub.
     + (* do *) rewrite p_do. apply t_do_end; auto with sub.
     + (* while *) rewrite p_while. apply c_other; [kwc|auto with sub|]. apply c_sp_O; [auto with sub|]. apply (c_app _ _ O A A); [apply t_pexp_s; auto with sub|].
       apply c_sp_A; [auto with sub|]. apply t_do_end; auto with sub.
     + (* repeat *) rewrite p_repeat. apply c_other; [kwc|auto with sub|]. apply c_eol; [auto with sub|]. apply (c_weak _ O OG A A); [auto with sub|apply sub_refl|].
       apply (c_app _ _ O O A); [apply H0|]. apply (c_app _ _ O O A); [apply t_indent_O|]. apply c_other; [kwc|auto with sub|]. apply c_sp_O; [auto with sub|]. apply t_pexp_s; auto with sub.
-    + (* if *) rewrite p_if. apply c_other; [kwc|auto with sub|]. apply c_sp_O; [auto with sub|]. apply (c_app _ _ O A A); [apply t_pexp_s; auto with sub|].
-      apply c_sp_A; [auto with sub|]. apply c_other; [kwc|auto with sub|]. apply c_eol; [auto with sub|]. apply (c_weak _ O OG A A); [auto with sub|apply sub_refl|].
-      apply (c_app _ _ O O A); [apply H0|]. apply (c_app _ _ O O A); [apply H1|]. apply (c_app _ _ O O A); [apply t_indent_O|]. apply c_other; [kwc|auto with sub|apply c_nil; auto with sub].
+    + (* if *) rewrite p_if. destruct (if_guard c t r) as [s1|].
+      * apply c_other; [kwc|auto with sub|]. apply c_sp_O; [auto with sub|]. apply (c_app _ _ O A A); [apply t_pexp_s; auto with sub|].
+        apply c_sp_A; [auto with sub|]. apply c_other; [kwc|auto with sub|]. apply (c_weak _ O OG A A); [auto with sub|apply sub_refl|apply t_collapsed].
+      * apply c_other; [kwc|auto with sub|]. apply c_sp_O; [auto with sub|]. apply (c_app _ _ O A A); [apply t_pexp_s; auto with sub|].
+        apply c_sp_A; [auto with sub|]. apply c_other; [kwc|auto with sub|]. apply c_eol; [auto with sub|]. apply (c_weak _ O OG A A); [auto with sub|apply sub_refl|].
+        apply (c_app _ _ O O A); [apply H0|]. apply (c_app _ _ O O A); [apply H1|]. apply (c_app _ _ O O A); [apply t_indent_O|]. apply c_other; [kwc|auto with sub|apply c_nil; auto with sub].
     + (* numeric for *) rewrite p_numfor. apply c_other; [kwc|auto with sub|]. apply c_sp_O; [auto with sub|]. apply c_val; [reflexivity|auto with sub|].
       apply c_sp_A; [auto with sub|]. apply c_other; [kwc|auto with sub|]. apply c_sp_O; [auto with sub|]. apply (c_app _ _ O A A); [apply t_pexp_s; auto with sub|].
       apply c_other; [kwc|auto with sub|]. apply c_sp_O; [auto with sub|]. apply (c_app _ _ O A A); [apply t_pexp_s; auto with sub|].
@@ -336,14 +375,14 @@ Proof.
     + (* function *) rewrite p_function.
       change (kw "function" :: sp :: dotted p ++ (match m with Some n => [kw ":"; TIdent n] | None => [] end) ++ pparams c ps va ++ fbody c d body)
         with ((kw "function" :: sp :: dotted p) ++ (match m with Some n => [kw ":"; TIdent n] | None => [] end) ++ pparams c ps va ++ fbody c d body).
-      rewrite !app_assoc. apply (c_app _ _ O G A); [|apply (c_weak _ A G A A); [auto with sub|apply sub_refl|apply t_fbody; assumption]].
-      rewrite <- !app_assoc. apply (c_weak _ A O G G); [auto with sub|apply sub_refl|]. apply t_header.
+      rewrite !app_assoc. apply (c_app _ _ O OG A); [|apply (c_weak _ O OG A A); [auto with sub|apply sub_refl|apply t_fbody; assumption]].
+      rewrite <- !app_assoc. apply (c_weak _ A O OG OG); [auto with sub|apply sub_refl|]. apply t_header.
     + (* local function *) rewrite p_localfunction. apply c_other; [kwc|auto with sub|]. apply c_sp_O; [auto with sub|].
       change (kw "function" :: sp :: TIdent n :: pparams c ps va ++ fbody c d body) with ((kw "function" :: sp :: dotted [n] ++ [] ++ pparams c ps va) ++ fbody c d body).
-      apply (c_app _ _ O G A); [|apply (c_weak _ A G A A); [auto with sub|apply sub_refl|apply t_fbody; assumption]].
-      apply (c_weak _ A O G G); [auto with sub|apply sub_refl|]. apply (t_header [n] None ps va).
-    + (* return *) destruct es as [|e es']; cbn [pstmt]; (apply c_other; [kwc|auto with sub|]); [apply c_nil; auto with sub|]. apply c_sp_O; [auto with sub|]. apply t_pexps; auto with sub.
-    + (* break *) cbn [pstmt]. apply c_other; [kwc|auto with sub|apply c_nil; auto with sub].
+      apply (c_app _ _ O OG A); [|apply (c_weak _ O OG A A); [auto with sub|apply sub_refl|apply t_fbody; assumption]].
+      apply (c_weak _ A O OG OG); [auto with sub|apply sub_refl|]. apply (t_header [n] None ps va).
+    + (* return *) destruct es as [|e es']; cbn [pstmt psimple]; (apply c_other; [kwc|auto with sub|]); [apply c_nil; auto with sub|]. apply c_sp_O; [auto with sub|]. apply t_pexps; auto with sub.
+    + (* break *) cbn [pstmt psimple]. apply c_other; [kwc|auto with sub|apply c_nil; auto with sub].
     + (* no else *) apply c_nil. apply sub_refl.
     + (* else *) rewrite p_else. apply (c_app _ _ O O O); [apply t_indent_O|]. apply c_other; [kwc|auto with sub|]. apply c_eol; [auto with sub|]. apply (c_weak _ O OG O O); [auto with sub|apply sub_refl|apply H0].
     + (* elseif *) rewrite p_elseif. apply (c_app _ _ O O O); [apply t_indent_O|]. apply c_other; [kwc|auto with sub|]. apply c_sp_O; [auto with sub|].
@@ -368,7 +407,7 @@ Proof. apply (pprog_spacing (space_call (space0 c)) (space_definition (space0 c)
 Theorem format0_obeys_space_after_function_names c p : scan c (pprog c (norm0 c p)) <> None.
 Proof. apply printed_tokens_obey_space_after_function_names. Qed.
 (* non-vacuity: the scanner rejects a blank where the option forbids it and a missing blank where the option asks for one *)
-Definition cfg_of (m : smode) : cfg0 := {| windows0 := false; spaces0 := false; width0 := 4; style0 := QuoteMore.AutoDouble; callp0 := Always; space0 := m |}.
+Definition cfg_of (m : smode) : cfg0 := {| windows0 := false; spaces0 := false; width0 := 4; style0 := QuoteMore.AutoDouble; callp0 := Always; space0 := m; collapse0 := CAlways |}.
 Example scanner_rejects :
   scan (cfg_of SNever) [TIdent (str "f"); sp; kw "("; kw ")"] = None
   /\ scan (cfg_of SCalls) [TIdent (str "f"); kw "("; kw ")"] = None
